@@ -57,10 +57,10 @@ ASSUMPTIONS = [
     "evaluate_plot_string: strings with '{' or '[' must be list/dict displays of string constants (its docstring / assertion message); other strings are returned verbatim; "
     "the module-level name eval seen by atomica.utils is replaced by a recorder while the harness calls it",
 ]
-BUDGET = {"quick": 88000, "thorough": 4400000}
+BUDGET = {"quick": 88000, "thorough": 704000}  # thorough = 8x quick: a depth that was run to completion, quiet, at seed 1 (deterministic given the seed)
 if os.environ.get("C19_BUDGET_SCALE"):  # smoke-testing the thorough plumbing with a fraction of the budget
     BUDGET = {k: max(16, int(v * float(os.environ["C19_BUDGET_SCALE"]))) for k, v in BUDGET.items()}
-TIME_CAP = {"quick": 35, "thorough": 1100}
+TIME_CAP = {"quick": 35, "thorough": 1500}
 TOL = 1e-12
 ATHERIS_SECONDS = int(os.environ.get("C19_ATHERIS_SECONDS", "420"))
 
